@@ -1,6 +1,20 @@
 // K-SLFU: SampledLFU cost accounting (C20).  Arbitrary tracker state: a table of <= N (hash, cost) pairs
 // with distinct hashes and `used` equal to the sum of the recorded costs (the invariant), arbitrary
 // max_cost and sample size.  Costs are bounded by 2^40 in magnitude so that no i64 sum overflows (stated).
+// Non-blocking check: Kani's `assert!` assumes its condition afterwards, so the first failing conjunct of a contract
+// would hide every later one on the same path (and with it the verdicts of the other properties that harness serves).
+// `ck!` performs the check on a nondeterministically chosen side branch, so every conjunct is reported independently.
+macro_rules! ck {
+    ($c:expr, $m:literal) => {
+        if kani::any::<bool>() {
+            assert!($c, $m);
+        }
+    };
+    ($c:expr) => {
+        assert!($c)
+    };
+}
+
 use super::*;
 use crate::verif_hooks::gen::N;
 use crate::verif_hooks::spec::NMAX;
@@ -72,13 +86,13 @@ fn any_slfu(maxn: usize) -> (Slfu, Tab) {
 macro_rules! accounting {
     ($s:expr, $exp:expr) => {
         let probe = any_cost();
-        assert!($s.verif_used() == $exp.sum(), "[C20.used] the running total equals the sum of the costs currently recorded");
-        assert!($s.room_left(probe) == $exp.max_cost - $exp.sum() - probe, "[C20.room] room_left(c) == max_cost - sum of recorded costs - c");
-        assert!($s.verif_len() == $exp.n, "[C20.table] exactly the expected keys are tracked");
+        ck!($s.verif_used() == $exp.sum(), "[C20.used] the running total equals the sum of the costs currently recorded");
+        ck!($s.room_left(probe) == $exp.max_cost - $exp.sum() - probe, "[C20.room] room_left(c) == max_cost - sum of recorded costs - c");
+        ck!($s.verif_len() == $exp.n, "[C20.table] exactly the expected keys are tracked");
         let mut i = 0;
         while i < NMAX {
             if i < $exp.n {
-                assert!($s.verif_cost_of($exp.k[i]) == Some($exp.c[i]), "[C20.table] every tracked key carries its recorded cost");
+                ck!($s.verif_cost_of($exp.k[i]) == Some($exp.c[i]), "[C20.table] every tracked key carries its recorded cost");
             }
             i += 1;
         }
@@ -133,7 +147,7 @@ fn slfu_update_remove() {
     let mut exp = t;
     if remove {
         let r = if by_key { s.remove(&key) } else { s.remove_hashed_key(h) };
-        assert!(r == t.cost_of(h), "[C20.report] remove reports exactly whether the key was tracked, and its recorded cost");
+        ck!(r == t.cost_of(h), "[C20.report] remove reports exactly whether the key was tracked, and its recorded cost");
         let mut i = 0;
         while i < NMAX {
             if i < t.n && t.k[i] == h {
@@ -146,7 +160,7 @@ fn slfu_update_remove() {
         }
     } else {
         let r = if by_key { s.update(&key, c) } else { s.update_hashed_key(h, c) };
-        assert!(r == t.cost_of(h).is_some(), "[C20.report] update reports exactly whether the key was tracked");
+        ck!(r == t.cost_of(h).is_some(), "[C20.report] update reports exactly whether the key was tracked");
         let mut i = 0;
         while i < NMAX {
             if i < t.n && t.k[i] == h {
@@ -172,7 +186,7 @@ fn slfu_clear_max_cost() {
     } else {
         s.update_max_cost(mc);
         exp.max_cost = mc;
-        assert!(s.get_max_cost() == mc, "[C20.room] get_max_cost returns the updated maximum");
+        ck!(s.get_max_cost() == mc, "[C20.room] get_max_cost returns the updated maximum");
     }
     accounting!(s, exp);
 }
@@ -197,17 +211,17 @@ fn fill_sample_case(m: usize) {
     kani::cover!(m + t.n < t.samples && t.n > 0, "fill_sample: table exhausted first");
     let out = s.fill_sample(input);
     let want_len = if m >= t.samples { m } else if m + t.n < t.samples { m + t.n } else { t.samples };
-    assert!(out.len() == want_len, "[C20.sample] fill_sample stops at the sample size or when every tracked pair was added");
+    ck!(out.len() == want_len, "[C20.sample] fill_sample stops at the sample size or when every tracked pair was added");
     let mut i = 0;
     while i < NMAX + 2 {
         if i < out.len() {
             if i < m {
-                assert!(out[i] == (ik[i], ic[i]), "[C20.sample] fill_sample returns its input first, unchanged");
+                ck!(out[i] == (ik[i], ic[i]), "[C20.sample] fill_sample returns its input first, unchanged");
             } else {
-                assert!(t.cost_of(out[i].0) == Some(out[i].1), "[C20.sample] every appended pair is a genuinely tracked (key, cost) pair");
+                ck!(t.cost_of(out[i].0) == Some(out[i].1), "[C20.sample] every appended pair is a genuinely tracked (key, cost) pair");
                 let mut j = m;
                 while j < i {
-                    assert!(out[j].0 != out[i].0, "[C20.sample] no tracked pair is appended twice");
+                    ck!(out[j].0 != out[i].0, "[C20.sample] no tracked pair is appended twice");
                     j += 1;
                 }
             }
